@@ -30,19 +30,21 @@ Record tnet := {
   dl : option Z;                    (* the instant last given to SetReadDeadline (None: the zero time) *)
   unread : list byte;               (* arrived, not yet read (kernel buffer / rest of the last datagram) *)
   pend : list (Z * list byte);      (* future arrivals: (absolute time, bytes) in order *)
-  fin : Z                           (* the client closes at this instant *)
+  fin : Z;                          (* the client closes at this instant *)
+  stale : bool                      (* UDP: a tick of packetConn.deadlineTimer that belongs to an EARLIER SetReadDeadline is
+                                       still in the timer's channel (capacity 1; Reset does not drain it) *)
 }.
 
 Definition tnow (n : tnet) : Z := clock n.
 Definition with_clock (c : Z) (n : tnet) : tnet :=
-  {| clock := c; dl := dl n; unread := unread n; pend := pend n; fin := fin n |}.
+  {| clock := c; dl := dl n; unread := unread n; pend := pend n; fin := fin n; stale := stale n |}.
 Definition take (max : nat) (d : list byte) (rest : list (Z * list byte)) (c : Z) (n : tnet) : rres * tnet :=
   (RData (firstn max d),
-   {| clock := c; dl := dl n; unread := skipn max d; pend := rest; fin := fin n |}).
+   {| clock := c; dl := dl n; unread := skipn max d; pend := rest; fin := fin n; stale := stale n |}).
 
 (* ---------------------------------------------------------------- TCP *)
 Definition tcp_set_dl (v : option Z) (n : tnet) : tnet :=
-  {| clock := clock n; dl := v; unread := unread n; pend := pend n; fin := fin n |}.
+  {| clock := clock n; dl := v; unread := unread n; pend := pend n; fin := fin n; stale := stale n |}.
 
 Definition passed (o : option Z) (t : Z) : bool := match o with Some D => D <=? t | None => false end.
 
@@ -69,7 +71,6 @@ Definition udp_store (g : Z) (t : Z) : Z := (t / g) * g.
 
 (* SetReadDeadline: pc.deadline keeps [udp_store g t]; deadlineTimer is set to fire at t itself.
    Both derive from the one instant kept in [dl]. *)
-Definition udp_set_dl_g (g : Z) (v : option Z) (n : tnet) : tnet := tcp_set_dl v n.
 Definition udp_stored (g : Z) (n : tnet) : option Z := option_map (udp_store g) (dl n).
 
 (* isDeadlineExceeded(stored): !zero && stored.Before(now) *)
@@ -97,24 +98,55 @@ Definition udp_read_g (g : Z) (max : nat) (n : tnet) : rres * tnet :=
         end
   end.
 
-Definition udp_set_dl := udp_set_dl_g udp_granularity.
-Definition udp_read := udp_read_g udp_granularity.
+(* ---- the deadline timer of packetConn: a time.Timer whose channel holds at most one tick and is not drained by
+   Reset (the semantics /repo's go.mod selects, and the code relies on: "deadline may change during the wait,
+   recheck").  SetReadDeadline(t) Resets the timer to fire at t; with the zero time, or with an instant that
+   has passed, it fires at once.  A tick that nobody received stays in the channel: [stale].  The tick of the
+   CURRENT deadline needs no state: it exists from max(t, now) on, which is what [udp_read_g] waits for. *)
+Definition udp_set_dl_m (v : option Z) (n : tnet) : tnet :=
+  {| clock := clock n; dl := v; unread := unread n; pend := pend n; fin := fin n;
+     stale := stale n
+              || match v with None => true | Some _ => false end                      (* Reset(<0): fires at once *)
+              || match dl n with Some T => T <=? clock n | None => false end |}.     (* the old timer had fired, unreceived *)
+Definition unstale (n : tnet) : tnet :=
+  {| clock := clock n; dl := dl n; unread := unread n; pend := pend n; fin := fin n; stale := false |}.
+
+(* does packetConn.Read compare the stored deadline with the clock again when the timer ticks? (generated) *)
+Definition udp_rechecks : bool := layer4_pc_read_timer_tick_rechecks_deadline.
+
+(* packetConn.Read as a machine over that timer.  When a stale tick is in the channel the select may receive it
+   first (the model lets it): with the recheck the stored deadline is found not exceeded (the entry test has
+   just passed) and the wait goes on; WITHOUT the recheck a tick means "timeout" whenever a deadline is set. *)
+Definition udp_read_m (rechk : bool) (g : Z) (max : nat) (n : tnet) : rres * tnet :=
+  match unread n with
+  | _ :: _ => udp_read_g g max n
+  | [] =>
+    if exceeded (udp_stored g n) (clock n) then (RTimeout, n)
+    else if stale n then
+      if negb rechk && match dl n with Some _ => true | None => false end then (RTimeout, unstale n)
+      else udp_read_g g max (unstale n)
+    else udp_read_g g max n
+  end.
+
+Definition udp_set_dl := udp_set_dl_m.
+Definition udp_read := udp_read_m udp_rechecks udp_granularity.
 
 (* Connection.Wrap: the old Connection below delivers its buffered bytes first *)
 Definition tpush (b : list byte) (n : tnet) : tnet :=
-  {| clock := clock n; dl := dl n; unread := b ++ unread n; pend := pend n; fin := fin n |}.
+  {| clock := clock n; dl := dl n; unread := b ++ unread n; pend := pend n; fin := fin n; stale := stale n |}.
 
 (* ---------------------------------------------------------------- running the router over them *)
 Definition t_init (t0 : Z) (arrivals : list (Z * list byte)) (close_at : Z) : tnet :=
-  {| clock := t0; dl := None; unread := []; pend := arrivals; fin := close_at |}.
+  {| clock := t0; dl := None; unread := []; pend := arrivals; fin := close_at; stale := false |}.
 
 Definition st_init (n : tnet) : st tnet := {| off := 0%nat; avail := []; nt := n; tr := [] |}.
 
 Definition tcp_serve (fuel : nat) (rs : list route) (timeout : Z) (n : tnet) : res tnet :=
   serve tnet tnow tcp_set_dl tcp_read tpush fuel rs timeout (st_init n).
-Definition udp_serve_g (g : Z) (fuel : nat) (rs : list route) (timeout : Z) (n : tnet) : res tnet :=
-  serve tnet tnow (udp_set_dl_g g) (udp_read_g g) tpush fuel rs timeout (st_init n).
-Definition udp_serve := udp_serve_g udp_granularity.
+Definition udp_serve_m (rechk : bool) (g : Z) (fuel : nat) (rs : list route) (timeout : Z) (n : tnet) : res tnet :=
+  serve tnet tnow udp_set_dl_m (udp_read_m rechk g) tpush fuel rs timeout (st_init n).
+Definition udp_serve_g (g : Z) := udp_serve_m true g.
+Definition udp_serve := udp_serve_m udp_rechecks udp_granularity.
 
 (* the instant and reason of the first drop in a timed trace *)
 Fixpoint first_drop (l : list (Z * ev)) : option (Z * dropwhy) :=
